@@ -486,7 +486,11 @@ func (e *kvElection) attemptPriorityTakeover(payloadBytes []byte) error {
 	return nil
 }
 
-func (e *kvElection) becomeFollower() {
+// becomeFollower moves the instance to FOLLOWER and reports whether it gave up
+// leadership by doing so. Callers that demote a leader run the OnDemote
+// callback only when it returns true, so that several detectors of the same
+// loss (heartbeat, validation, watcher, connection) invoke it exactly once.
+func (e *kvElection) becomeFollower() bool {
 	e.mu.Lock()
 	defer e.mu.Unlock()
 
@@ -494,7 +498,7 @@ func (e *kvElection) becomeFollower() {
 	// when Stop/StopWithContext returned must not move it back to FOLLOWER
 	// or restart the watcher.
 	if s, ok := e.state.Load().(string); ok && s == StateStopped && !e.isLeader.Load() {
-		return
+		return false
 	}
 
 	fromState := StateInit
@@ -533,6 +537,25 @@ func (e *kvElection) becomeFollower() {
 			defer e.wg.Done()
 			e.watchLoop(e.ctx)
 		}()
+	}
+
+	return wasLeader
+}
+
+// runOnDemote invokes the OnDemote callback, if one is registered.
+func (e *kvElection) runOnDemote(reason string) {
+	e.mu.RLock()
+	onDemote := e.onDemote
+	e.mu.RUnlock()
+
+	if onDemote != nil {
+		log := e.getLogger()
+		log.Info("leader_demoted",
+			append(e.logWithContext(e.ctx),
+				zap.String("reason", reason),
+			)...,
+		)
+		onDemote()
 	}
 }
 
